@@ -5,6 +5,6 @@ wt=/tmp/sc_$$
 git -C /repo worktree add -q --detach $wt HEAD || exit 2
 cp /repo/Cargo.lock $wt/ 2>/dev/null
 if git -C $wt apply /verif/seeded/$n/patch.diff; then
-  for p in "$@"; do UMYA_REPO=$wt /verif/vcheck $p 2>&1 | grep -E "violated:|^C[0-9]+ tier" | cut -c1-220; done
+  for p in "$@"; do UMYA_KEEP_EVIDENCE=1 UMYA_REPO=$wt /verif/vcheck $p 2>&1 | grep -E "violated:|^C[0-9]+ tier" | cut -c1-220; done
 else echo "patch does not apply"; fi
 git -C /repo worktree remove --force $wt; git -C /repo worktree prune
